@@ -42,6 +42,9 @@ pub struct SimIo {
     pub log: Vec<String>,
     /// (pos, written) mirrored after every call so the harness can look inside a wrapped object
     pub mirror: std::sync::Arc<std::sync::Mutex<(usize, Vec<u8>)>>,
+    /// false: a sink that only implements the scalar write; its vectored entry points behave like
+    /// the provided defaults of std / tokio (first non-empty slice) and it says so
+    pub vectored: bool,
 }
 
 impl SimIo {
@@ -62,6 +65,7 @@ impl SimIo {
             seek_target: None,
             log: vec![],
             mirror: Default::default(),
+            vectored: true,
         }
     }
 
@@ -249,6 +253,10 @@ impl io::Write for SimIo {
         Ok(n)
     }
     fn write_vectored(&mut self, bufs: &[IoSlice<'_>]) -> io::Result<usize> {
+        if !self.vectored {
+            let buf = bufs.iter().find(|b| !b.is_empty()).map_or(&[][..], |b| &**b);
+            return io::Write::write(self, buf);
+        }
         let total: usize = bufs.iter().map(|b| b.len()).sum();
         let n = self.do_write(total)?;
         let mut left = n;
@@ -348,6 +356,10 @@ impl tokio::io::AsyncWrite for SimIo {
         }
     }
     fn poll_write_vectored(mut self: Pin<&mut Self>, cx: &mut Context<'_>, bufs: &[IoSlice<'_>]) -> Poll<io::Result<usize>> {
+        if !self.vectored {
+            let buf = bufs.iter().find(|b| !b.is_empty()).map_or(&[][..], |b| &**b);
+            return tokio::io::AsyncWrite::poll_write(self, cx, buf);
+        }
         if self.draw_pending() {
             cx.waker().wake_by_ref();
             return Poll::Pending;
@@ -368,7 +380,7 @@ impl tokio::io::AsyncWrite for SimIo {
         }
     }
     fn is_write_vectored(&self) -> bool {
-        true
+        self.vectored
     }
     fn poll_flush(mut self: Pin<&mut Self>, cx: &mut Context<'_>) -> Poll<io::Result<()>> {
         if self.draw_pending() {
